@@ -1,11 +1,9 @@
 """C13 -- <data> views behave like a vector bounded by their buffer (explicit-state, closed state space)."""
 from .. import cxx, libcheck
-from ..evidence import Report
-
-SRC = "c13_data.cpp"
+from ._lib import lib_run
 
 
-def variants(tier):
+def run(tier, replay=None):
     cells = cxx.QUICK_CELLS if tier == "quick" else cxx.FOUR_CELLS
     cap = 4 if tier == "quick" else 5
     vs = []
@@ -16,59 +14,15 @@ def variants(tier):
                     "%s-%s-b%d-cap%d" % (cxx.cell_name(cell), schema, bsel, cap), cell,
                     ["SBEPP_ENABLE_ASSERTS_WITH_HANDLER", "SCHEMA=" + schema, "BIG=%d" % big, "CAP=%d" % cap,
                      "BYTESEL=%d" % bsel]))
-    return vs, cap
-
-
-def run(tier, replay=None):
-    rep = Report("C13", tier, "model_checking")
-    vs, cap = variants(tier)
-    if replay:
-        vs = [v for v in vs if v.tag == replay["case"]["variant"]] or vs
-    rep.set("bounds", {"capacity": cap, "alphabet": "{0, 0x61, 0xE2/-30}", "cells": sorted({cxx.cell_name(v.cell) for v in vs}),
-                       "length_types": ["uint8", "uint16", "uint32", "uint64"], "byte_orders": ["little", "big"],
-                       "element_types": ["char", "uint8", "int8"], "byte_types": ["char", "unsigned char"]})
-    results = libcheck.build_and_run(rep, "c13", SRC, vs)
-    states = transitions = configs = 0
-    for v, lines, dt in results:
-        fails = [l for l in lines if l[0] == "FAIL"]
-        for l in lines:
-            if l[0] == "COMPILE-ERROR":
-                rep.violation("compile-error:" + v.tag.split("-lib")[0],
-                              {"variant": v.tag, "msg": "explorer does not compile: " + l[1][-800:]})
-            elif l[0] == "RUN-ERROR":
-                rep.harness_error("%s: %s" % (v.tag, l[1:]))
-            elif l[0] == "STATS":
-                kv = dict(x.split("=") for x in l[2:])
-                configs += 1
-                states += int(kv["states"])
-                transitions += int(kv["transitions"]) + int(kv["reads"])
-                rep.add("distinct_successor_states", int(kv["successors"]))
-                if int(kv["successors_outside_state_set"]):
-                    rep.harness_error("%s: state space not closed (%s)" % (l[1], kv))
-                if int(kv["successors"]) != int(kv["states"]):
-                    # every state must be reachable as a successor when nothing failed
-                    if int(kv["failures"]) == 0:
-                        rep.harness_error("%s: successors != states without failures" % l[1])
-                if len(rep.cov["samples"]) < 3:
-                    rep.sample({"config": l[1], "stats": kv})
-        if fails:
-            # determinism: the same variant must fail the same way when re-run alone
-            v2, lines2, _ = libcheck.rerun("c13", SRC, v)
-            f2 = [l for l in lines2 if l[0] == "FAIL"]
-            if f2 != fails:
-                rep.harness_error("%s: failures not reproducible on re-run" % v.tag)
-                continue
-        for l in fails:
-            _, sig, cfg, state, op, kind, detail = (l + [""] * 7)[:7]
-            rep.violation(sig, {"variant": v.tag, "config": cfg, "state": state, "op": op, "kind": kind,
-                                "msg": "%s on state %s of %s: %s %s" % (op, state, cfg, kind, detail)})
-    rep.sample({"state": "[0,97]", "op": "erase(1,2)", "oracle": "std::vector after the same op; prefix, payload, returned iterator, bytes outside"})
-    rep.set("states", states)
-    rep.set("transitions", transitions)
-    rep.set("traces_validated_against_impl", transitions)
-    rep.set("configurations", configs)
-    if configs != len(vs) * 12 and not rep.violations:
-        rep.harness_error("expected %d configurations, saw %d" % (len(vs) * 12, configs))
-    rep.assume("long random operation sequences beyond the closed small-state space are not run (sampling is outside this family)")
-    rep.assume("resize(n, default_init) leaves new elements unspecified; only the old ones are compared")
-    return rep.finish()
+    return lib_run(
+        "C13", tier, "c13", "c13_data.cpp", vs,
+        {"capacity": cap, "alphabet": "{0, 0x61, 0xE2 | -30}", "length_types": ["uint8", "uint16", "uint32", "uint64"],
+         "byte_orders": ["little", "big"], "element_types": ["char", "uint8", "int8"],
+         "byte_types": ["char", "unsigned char"],
+         "ops": "push_back pop_back clear insert(pos,v) insert(pos,cnt,v) insert(pos,first,last)[forward+input] insert(pos,ilist) erase(pos) erase(first,last) resize(n) resize(n,v) resize(n,default_init) assign(cnt,v) assign(first,last)[forward+input] assign(ilist) assign_string assign_range[vector,string,string_view] + all read accessors"},
+        12,
+        [{"state": "[0,97]", "op": "erase(1,2)", "oracle": "std::vector after the same op: size prefix, payload, returned iterator; bytes outside prefix+max(old,new) payload unchanged; outcome OK (no HANDLER/FAULT/TIMEOUT)"}],
+        ["long random operation sequences beyond the closed small-state space are not run (sampling is outside this family)",
+         "resize(n, default_init) leaves new elements unspecified; only the old ones are compared",
+         "every state of the bounded space is a start state, so depth is irrelevant: the transition relation is covered completely"],
+        replay=replay)
